@@ -622,6 +622,13 @@ func NewRaft(conf *Config, fsm FSM, logs LogStore, stable StableStore, snaps Sna
 			return nil, err
 		}
 	}
+	// With RestoreCommittedLogs the commit index is known at this point: a
+	// latest configuration at or below it is the committed one. (Snapshots
+	// record the committed configuration, so it must not lag behind entries
+	// that are known to be committed.)
+	if ci := r.getCommitIndex(); ci > 0 && r.configurations.latestIndex <= ci {
+		r.setCommittedConfiguration(r.configurations.latest, r.configurations.latestIndex)
+	}
 	r.logger.Info("initial configuration",
 		"index", r.configurations.latestIndex,
 		"servers", hclog.Fmt("%+v", r.configurations.latest.Servers))
